@@ -11,18 +11,31 @@ use vlib::report::{hex, par_for, Acc, Deadline, Report, Tier, Violation};
 use crate::common::{build_file, guarded};
 use crate::cursor_bfs::{apply, bfs_file, replay_history, BfsOptions, CountSrc, Op};
 
-/// Opening reads only the trailer: no read below len - 22, at most 22 bytes, no absolute seek.
+/// Opening reads only the trailer: no read below len - 22 (how many calls, or how often the
+/// trailer bytes are read, is not the statement's business). Creating the cursor is not a cursor
+/// operation either: whatever it loads is charged to the first operation — together they must
+/// stay within the bound of one operation.
 pub fn check_open(bytes: &[u8]) -> Result<(), String> {
     let src = CountSrc::new(bytes);
     let stats = src.stats.clone();
     let r = guarded(|| Reader::new(src)).map_err(|p| format!("open {p}"))?;
-    r.map_err(|e| format!("open: {e}"))?;
+    let reader = r.map_err(|e| format!("open: {e}"))?;
     let lowest = stats.min_read_off.get();
     if lowest < (bytes.len() as u64).saturating_sub(22) {
         return Err(format!("Reader::new read at offset {lowest} of a {} byte file: outside the 22-byte trailer", bytes.len()));
     }
-    if stats.read_bytes.get() > 22 + 4 {
-        return Err(format!("Reader::new read {} bytes, the trailer has 22", stats.read_bytes.get()));
+    let levels = vlib::fmt::parse_trailer(bytes).map(|t| t.levels as u64).unwrap_or(0);
+    let bound = 2 * (levels + 2);
+    let block_offsets = crate::files::block_offsets(bytes);
+    stats.reset();
+    let r = guarded(|| -> Result<u64, String> {
+        let mut c = reader.into_cursor().map_err(|e| format!("into_cursor: {e}"))?;
+        c.move_on_first().map_err(|e| format!("first: {e}"))?;
+        Ok(stats.block_loads(&block_offsets))
+    })
+    .map_err(|p| format!("into_cursor + first {p}"))??;
+    if r > bound {
+        return Err(format!("into_cursor() followed by move_on_first() loaded {r} blocks, bound 2*(levels+2) = {bound}"));
     }
     Ok(())
 }
@@ -35,9 +48,10 @@ pub fn growth_case(spec: &FileSpec, acc: &mut Acc) -> Result<u64, String> {
     let model = Model::new(entries);
     let n = model.len();
     let bound = 2 * (spec.cfg.index_levels as u64 + 2);
-    // a scan fallback reads orders of magnitude more than a few blocks: 4x slack leaves room for
-    // read-ahead while still separating the two
-    let byte_bound = 4 * bound * (8 + crate::files::max_stored_block(&bytes));
+    // "never degrade into a scan of the data blocks": one operation reading more than half of the
+    // file (and more than four times what the allowed number of the largest blocks amounts to) is
+    // a scan, however few read calls it takes; read-ahead below that is the implementation's choice
+    let byte_bound = std::cmp::max(4 * bound * (8 + crate::files::max_stored_block(&bytes)), bytes.len() as u64 / 2);
     let block_offsets = crate::files::block_offsets(&bytes);
     let src = CountSrc::new(&bytes);
     let stats = src.stats.clone();
@@ -90,15 +104,20 @@ pub fn growth_case(spec: &FileSpec, acc: &mut Acc) -> Result<u64, String> {
                 ));
             }
         }
-        // a long relative walk: every single step obeys the bound
-        let mut c = base.clone();
-        for _ in 0..200.min(n) {
-            stats.reset();
-            apply(&mut c, &Op::Next)?;
-            let loads = stats.block_loads(&block_offsets);
-            acc.transitions += 1;
-            if loads > bound {
-                return Err(format!("n = {n}: next during a walk from {:?} loaded {loads} blocks > {bound}", p));
+        // long relative walks in both directions: every single step obeys the bound
+        for (op, name) in [(Op::Next, "next"), (Op::Prev, "prev")] {
+            let mut c = base.clone();
+            for _ in 0..200.min(n) {
+                stats.reset();
+                apply(&mut c, &op)?;
+                let loads = stats.block_loads(&block_offsets);
+                acc.transitions += 1;
+                if loads > bound {
+                    return Err(format!("n = {n}: {name} during a walk from {:?} loaded {loads} blocks > {bound}", p));
+                }
+                if stats.read_bytes.get() > byte_bound {
+                    return Err(format!("n = {n}: {name} during a walk from {:?} read {} bytes > {byte_bound}", p, stats.read_bytes.get()));
+                }
             }
         }
     }
